@@ -124,6 +124,12 @@ Eval vm_compute in ("G2T", "P", let d := P_D3 in map (fun st => ib_out (nth 0 (e
 Lemma P_D2_scoped : wscoped P_D2 (4 * P_n) = true.
 Proof. vm_compute. reflexivity. Qed.
 Definition P_order3 a e r Ha He := C01_directional_derivative P_D2 (4 * P_n) [0%nat] a e r Ha He P_D2_scoped.
+(* the third-virial limit theorem instantiated on this program (per temperature) *)
+Definition P_vobl3 (st : list (Z * Z)) : bool :=
+  match st with T :: _ :: cs => virial_obligations3 P_prog T (1, -60)%Z cs PREC | _ => false end.
+Eval vm_compute in ("VOBL3", "P", map P_vobl3 P_inputs).
+Definition P_limit3 (T : Z * Z) (cs : list (Z * Z)) := C13_third_virial_limit_of_program P_prog T (1, -60)%Z cs PREC.
+Check P_limit3.
 "#;
 
 struct Par<'a> {
@@ -169,7 +175,7 @@ fn one<R: Residual>(name: &str, model: &Arc<R>, ncomp: usize, t_scale: f64, par:
         let do3 = ninstr <= lim3;
         // programs above this size are not enclosed in this tier (oracle only)
         let enclosed = !oracle_only && ninstr <= if full { 3000 } else { 1500 };
-        let mut v = emit::header(&["ProgSem", "ProgSemBig", "AD", "BoxBig", "VirialBox"]);
+        let mut v = emit::header(&["ProgSem", "ProgSemBig", "AD", "BoxBig", "VirialBox", "VirialBox3"]);
         v.push_str("From FeosProps Require Import C01 C13.\n");
         v.push_str(&prog.emit_coq("P"));
         let rows: Vec<String> = ts
